@@ -2,10 +2,11 @@
 HARNESSES = [
     COMMON["dec12"]("partial12", ["C18"], COMMON["dec12_cases"](64, None) + COMMON["dec12_cases"](96, None, tier="thorough")),
     COMMON["dec13"]("partial13", ["C18"], ns=((48, "quick"), (96, "thorough"))),
+    COMMON["api_recv"](),
 ]
 PROPERTY = dict(level='model_checking',
-    claim='SSL_PARTIAL is pure: the buffer, the bytes and the session state are unchanged and requiredLen exceeds what is buffered.',
+    claim='SSL_PARTIAL is pure (buffer, bytes, session state unchanged; requiredLen exceeds what is buffered); the bytes a decode call consumes equal the record bookkeeping the API layer compacts by; matrixSslReceivedData / matrixSslProcessedData / matrixSslSentData from an arbitrary buffer state always hand the decoder the buffer front holding exactly the unconsumed suffix of the received stream (position-tagged bytes), keep unconsumed bytes across compaction, growth and shrinking, deliver only the region the decoder released, and keep the unsent output tail in order.',
     bounds='as C01',
-    outside='matrixSslReceivedData buffer management and suffix independence are not yet encoded',
+    outside='end-to-end equality of two runs with different chunkings (decided compositionally: decoder purity + API stream invariant); buffers above 12/28/34 bytes in the API harness (SSL_DEFAULT_*_BUF_SIZE scaled to 12); handshake-message fragment reassembly',
     explanation='SSL_PARTIAL is pure: the buffer, the bytes and the session state are unchanged and requiredLen exceeds what is buffered.',
     assumptions=[])
